@@ -178,6 +178,31 @@ class Flow:
                 return True
         return False
 
+    def normalize_case(self, conds, leaf):
+        """Resolve phis inside the conditions/leaf of one case using the other conditions of the same case."""
+        from .terms import resolve_by
+        conds = list(conds)
+        for _ in range(3):
+            changed = False
+            for i, c in enumerate(conds):
+                atom, truth = c, True
+                while atom[0] == 'op' and atom[1] == 'not':
+                    atom, truth = atom[2][0], not truth
+                for j in range(len(conds)):
+                    if j == i:
+                        continue
+                    nc = resolve_by(conds[j], atom, truth)
+                    if nc != conds[j]:
+                        conds[j] = nc
+                        changed = True
+                nl = resolve_by(leaf, atom, truth)
+                if nl != leaf:
+                    leaf = nl
+                    changed = True
+            if not changed:
+                break
+        return tuple(conds), leaf
+
     def cell_cases(self, cell, deep=True):
         t = self.m.up_fields.get(cell)
         if t is None:
@@ -399,7 +424,7 @@ class Flow:
     def extremum(self, cell):
         """Rescanned-extremum classification + X1 freshness + W4 scan order. Returns (kind or None, ok, detail)."""
         try:
-            cs = self.cell_cases(cell, deep=False)
+            cs = [self.normalize_case(c, l) for c, l in self.cell_cases(cell, deep=False)]
         except OverflowError:
             return None, False, 'too many cases'
         selfv = {('in', cell), payload(('in', cell))}
@@ -408,6 +433,7 @@ class Flow:
         guards = self.pop_guards()
         scans = 0
         kind = None
+        scan_queues = set()
         for conds, leaf in cs:
             if not self.delivering(conds):
                 continue
@@ -428,6 +454,10 @@ class Flow:
                         if x[0] == 'get' and x[2][0] == 'idx':
                             seq = x[1]
                             break
+                if seq is not None:
+                    for y in subterms(seq):
+                        if y[0] == 'in' and y[1] in self.queues:
+                            scan_queues.add(y[1])
                 # W4: the scanned sequence must not contain the evicted element
                 if seq is not None:
                     bad = False
@@ -455,7 +485,7 @@ class Flow:
             if not keeps:
                 continue
             for q, info in self.queues.items():
-                if info['E'] is None or info['G'] is None:
+                if info['E'] is None or info['G'] is None or (scan_queues and q not in scan_queues):
                     continue
                 H = self.base.extended(list(conds) + ([info['G']] if info['G'] != TRUE else []))
                 if H.cube.dead or H.cube.theory_unsat():
@@ -480,7 +510,72 @@ class Flow:
                 if not excluded:
                     return kind or 'scan', False, ('a value leaves the window and the stored extremum survives although the evicted value may '
                                          'have been that extremum (case %s)' % [tstr(c)[:45] for c in conds][-3:])
-        return kind or 'scan', True, 'rescanned over the post-eviction window whenever the evicted value may be the extremum'
+        # X2: the newest value is always covered: the result is the new value itself, a scan that includes it, or a
+        # value that the path condition shows to be on the right side of the new value
+        direction = None
+        for conds, leaf in cs:
+            if not self.delivering(conds):
+                continue
+            val = leaf[1] if leaf[0] == 'some' else leaf
+            if val in vs:
+                for c in conds:
+                    for m_ in [x for x in subterms(c) if x in selfv]:
+                        pass
+                    for x in subterms(c):
+                        if x[0] == 'op' and x[1] in ('lt', 'gt', 'le', 'ge') and len(x[2]) == 2 and (x[2][0] == val or x[2][1] == val):
+                            other = x[2][1] if x[2][0] == val else x[2][0]
+                            lit_ = c if c == x else (neg_cond(x) if c == neg_cond(x) else None)
+                            if lit_ is None:
+                                continue
+                            r = relation(lit_, val, other)
+                            if r is not None and r <= {'>'}:
+                                direction = 'max'
+                            elif r is not None and r <= {'<'}:
+                                direction = 'min'
+        if kind in ('max', 'min'):
+            direction = kind
+        if direction is not None:
+            for conds, leaf in cs:
+                if not self.delivering(conds):
+                    continue
+                val = leaf[1] if leaf[0] == 'some' else leaf
+                if leaf[0] == 'none' or val in vs:
+                    continue
+                # a scan over a sequence that already contains the new value
+                seq_has_new = False
+                for x in subterms(val):
+                    if x[0] in ('push_back', 'push_front') and x[2] in vs:
+                        seq_has_new = True
+                if seq_has_new:
+                    continue
+                ok_rel = False
+                cands = [val] + ([payload(val)] if val == ('in', cell) else [])
+                for V_ in vs:
+                    for val_ in cands:
+                        allowed = {'<', '=', '>'}
+                        for c in conds:
+                            r = relation(c, V_, val_)
+                            if r is not None:
+                                allowed &= r
+                        if (direction == 'max' and allowed <= {'<', '='}) or (direction == 'min' and allowed <= {'>', '='}):
+                            ok_rel = True
+                    # the new value lies beyond the opposite extremum of the same window (max >= min is assumed)
+                    for c in conds:
+                        x = c
+                        negd = False
+                        while x[0] == 'op' and x[1] == 'not':
+                            x, negd = x[2][0], not negd
+                        if x[0] == 'op' and x[1] in ('lt', 'gt', 'le', 'ge') and len(x[2]) == 2 and V_ in x[2]:
+                            other = x[2][1] if x[2][0] == V_ else x[2][0]
+                            r = relation(c, V_, other)
+                            opp = any(y[0] == 'in' and y[1] != cell and y[1] in self.m.touched and y[1] not in self.B.buffers for y in subterms(other)) or \
+                                any(y[0] == 'reduce' and y[1] in ('max', 'min') and y[1] != direction for y in subterms(other))
+                            if opp and r is not None and ((direction == 'min' and r <= {'>'}) or (direction == 'max' and r <= {'<'})):
+                                ok_rel = True
+                if not ok_rel:
+                    return kind or 'scan', False, ('the stored %simum can end up on the wrong side of the newest value: the result %s is never compared with it on this path' % (
+                        direction, tstr(val)[:50]))
+        return kind or 'scan', True, 'rescanned over the post-eviction window whenever the evicted value may be the extremum; the newest value is always covered'
 
     # ------------------------------------------------------------------ holds
     def holds(self, cell):
